@@ -74,14 +74,15 @@ Theorem T09_frame_size :
 Proof. exact (fun ds es dec enc dr er => frame_size_from_start ds es dec enc dr er ob_settings_validated ob_initial_max_frame_is_rfc ob_headers_priority_len ob_push_promise_meta_len). Qed.
 Print Assumptions T09_frame_size.
 
-(* The stronger statement - within the limit the endpoint has most recently had acknowledged - is FALSE of
-   the code: a frame sized under an older, larger limit and held behind a closed window is released
-   unchanged after the endpoint lowered its limit and the change was acknowledged (known finding). *)
-Theorem T09_frame_size_at_emission_refuted :
+(* The stronger statement - within the limit the endpoint has most recently had acknowledged (or still has
+   pending) - used to be false: a DATA frame sized under an older, larger limit and held behind a closed
+   window was released unchanged.  DATA is now split again when it is released (queuedDataFrame.prepare/send),
+   header blocks are chunked at release; the former counterexample satisfies the predicate. *)
+Theorem T09_frame_size_at_emission_former_witness :
   hist_wf lowered_while_queued /\ hist_small lowered_while_queued /\
-  sizes_within_tolerated Sv (snd (H2Relay.run unit_dec unit_enc unit_res unit_res (pair0 unit unit tt tt tt tt) lowered_while_queued)) = false.
-Proof. exact (conj lowered_wf (conj lowered_small lowered_refutes)). Qed.
-Print Assumptions T09_frame_size_at_emission_refuted.
+  sizes_within_tolerated Sv (snd (H2Relay.run unit_dec unit_enc unit_res unit_res (pair0 unit unit tt tt tt tt) lowered_while_queued)) = true.
+Proof. exact (conj lowered_wf (conj lowered_small lowered_now_fine)). Qed.
+Print Assumptions T09_frame_size_at_emission_former_witness.
 
 (* T09_emit_within_window needs "at most one INITIAL_WINDOW_SIZE per SETTINGS frame": the relay applies
    each value as it comes and releases frames in between (RFC 7540 6.5.3: "with no other frame processing
